@@ -4,7 +4,7 @@ from vlib import *
 
 MANIFEST_ENTRY = dict(engine="Chain", design="§4 C15",
     technique="TLA+ scenario space ChainGen.tla simulated by TLC into block histories; every invariant route registered in the crisis keeper is evaluated on the real deliver state after every real EndBlock; results validated by TLC trace spec ChainTrace.tla (a broken route is a violation signature named after the route)",
-    text="The statement is about the concrete registered invariants, so the oracle is those routes themselves evaluated on the real state; what the specification contributes is the history space (TLC-simulated block histories mixing bank, staking incl. undelegation/redelegation, slashing by downtime and double-sign evidence, distribution, governance, vesting, liquid vesting, DAO, EVM transfers and contracts) and the trace validation that consumes every block's result; the ledger equations of Haqq's own modules are additionally checked by their module specifications (Ucdao, Vesting, LiquidVesting, Erc20Peg) on their own histories.",
+    text="The statement is about the concrete registered invariants, so the oracle is those routes themselves evaluated on the real state; what the specification contributes is the history space (TLC-simulated block histories mixing bank, staking incl. undelegation/redelegation, slashing by downtime and double-sign evidence, distribution, governance, vesting, liquid vesting, DAO, EVM transfers and contracts; every sixth history ends with the v1.7.6 upgrade handler force-undelegating a listed vesting account from a bonded or a freshly tombstoned, still unbonding validator) and the trace validation that consumes every block's result; the ledger equations of Haqq's own modules are additionally checked by their module specifications (Ucdao, Vesting, LiquidVesting, Erc20Peg) on their own histories.",
     note="Histories are bounded simulated samples; invariant routes are trusted to mean what the SDK says they mean; the crisis routes are evaluated after EndBlock, before Commit.",
     category="exploration")
 
